@@ -469,6 +469,21 @@ def gen_module_props(rng, nodespec):
             continue
         for key in rng.sample(sorted(MODULE_PROP_CFG), rng.randint(1, 3)):
             ms['cfg'][key] = {'value': rng.choice(MODULE_PROP_CFG[key])}
+    # configuration entries for PARAMETER properties that decide what the report says and how the node behaves:
+    # a constant given in the configuration (makes the parameter read-only), a narrower range (changes the datainfo)
+    for ms in nodespec['modules']:
+        for layer in ms['layers']:
+            for p in layer['params']:
+                if 'dt' not in p or p.get('constant') or p['attr'] in ms['cfg'] or rng.random() > 0.08:
+                    continue
+                if p['dt'][0] in ('floatr', 'intr') and rng.random() < 0.5:
+                    lo, hi = p['dt'][1], p['dt'][2]
+                    ms['cfg'][p['attr']] = {'max': lo + (hi - lo) // 2 if p['dt'][0] == 'intr' else lo + (hi - lo) / 2}
+                else:
+                    try:
+                        ms['cfg'][p['attr']] = {'constant': c04.mk_dtype(p['dt']).import_value(c04.gen_valid(rng, p['dt']))}
+                    except Exception:
+                        pass
     return nodespec
 
 
